@@ -3,6 +3,8 @@ independent h11 client, and the oracles (written from the property texts) used b
 C05, C06 and C18."""
 from __future__ import annotations
 
+import random
+
 from . import rig as R
 from . import sched as S
 
@@ -138,6 +140,12 @@ class Session:
                 p.crash = None
         self.max_requests = max_requests
         self.server_names = list(server_names)
+        # configurations under which the request is looked at differently: header names handed on as the client wrote them
+        # (h11_pass_raw_headers), and a list of server names (every generated Host is on it: nothing changes for the client)
+        rc = random.Random(rng.randrange(1 << 30))
+        self.raw_headers = rc.random() < 0.2
+        if not self.server_names and rc.random() < 0.2:
+            self.server_names = ["example.com", "example.com:8080"]
         self.max_incomplete = max_incomplete
         self.queue_size = queue_size
         self.policy = policy
@@ -154,6 +162,7 @@ class Session:
             cfg.h11_max_incomplete_size = self.max_incomplete
         if self.queue_size is not None:
             cfg.max_app_queue_size = self.queue_size
+        cfg.h11_pass_raw_headers = self.raw_headers
         self.log = []
         cfg._log = R.RecLog(self.log)
         self.records = []
@@ -241,7 +250,7 @@ class Session:
 
     def describe(self):
         return {"requests": [r.describe() for r in self.reqs], "plans": [p.describe() for p in self.plans],
-                "surplus": repr(getattr(self, "surplus", b"")), "max_requests": self.max_requests, "server_names": self.server_names, "policy": self.policy,
+                "surplus": repr(getattr(self, "surplus", b"")), "raw_headers": getattr(self, "raw_headers", False), "max_requests": self.max_requests, "server_names": self.server_names, "policy": self.policy,
                 "responses": [{"status": r["status"], "complete": r["complete"], "body_len": len(r["body"])} for r in getattr(self, "responses", [])],
                 "instances": len(getattr(self, "records", [])), "events": getattr(self.rig, "events", None) if hasattr(self, "rig") else None}
 
@@ -256,14 +265,14 @@ def deadlocked_on_own_queue(s) -> bool:
 
 
 # ------------------------------------------------------------------ oracles
-def expected_scope(req: Req, ssl=False):
+def expected_scope(req: Req, ssl=False, raw=False):
     from urllib.parse import unquote
 
     path, _, query = req.target.partition("?")
     return {
         "type": "http", "http_version": req.version, "method": req.method.upper(), "scheme": "https" if ssl else "http",
         "path": unquote(path), "raw_path": path.encode(), "query_string": query.encode(),
-        "headers": [(n.lower(), v) for n, v in req.headers],
+        "headers": [(n if raw else n.lower(), v) for n, v in req.headers],
         "client": ("10.0.0.1", 4321), "server": ("10.0.0.2", 443 if ssl else 80),
     }
 
@@ -273,7 +282,7 @@ def oracle_c01(s: Session):
     fails = []
     for k, rec in enumerate(s.records):
         req = s.reqs[k]
-        want = expected_scope(req)
+        want = expected_scope(req, raw=s.raw_headers)
         sc = rec["scope"]
         for key, val in want.items():
             if sc.get(key) != val:
